@@ -74,6 +74,7 @@ class SimThread:
         self.tls = {}
         self.prev_code = None
         self.ndp = 0
+        self.spin = 0
         self.no_async = False
         self.prev_line = 0
 
@@ -201,6 +202,8 @@ class Sim:
         self.held_budget = 0
         self.ntok = 0
         self.preempts = 0
+        self.proc_tag = None
+        self.spin_limit = self.knobs.get('spin_limit', 60000)
         self.fired = False
         self.dp_triggers = []
         self.dp_active = False
@@ -249,6 +252,7 @@ class Sim:
     # ------------------------------------------------------------------ processes & threads
     def new_proc(self, name, parent):
         p = SimProc(self, self.new_pid(), name, parent)
+        p.tag = self.proc_tag
         self.procs[p.pid] = p
         return p
 
@@ -520,6 +524,7 @@ class Sim:
         t = self.me()
         if t is None:
             return
+        t.spin = 0
         self.nsys += 1
         self.now += self.step_cost
         if self.steps + self.nsys > self.max_steps:
@@ -540,6 +545,7 @@ class Sim:
         """Block thread t on wait queues qs until woken or timeout (simulated seconds).
         Returns True if woken, False on timeout."""
         self.nsys += 1
+        t.spin = 0
         self.now += self.step_cost
         t.state = BLOCKED
         t.woken = False
@@ -616,6 +622,9 @@ class Sim:
         self.steps += 1
         self.now += self.step_cost
         t.nline += 1
+        t.spin += 1
+        if t.spin > self.spin_limit:
+            self._finish('spin', {'thread': t.name, 'role': t.role, 'stack': _fmt_stack(sys._getframe(2), short=True)})
         pc, pl = t.prev_code, t.prev_line
         t.prev_code, t.prev_line = code, line
         self.lhash = (self.lhash * 1000003 + code.co_firstlineno * 4099 + line + len(t.name)) & 0xFFFFFFFFFFFF
@@ -726,9 +735,9 @@ class Sim:
 
     # ------------------------------------------------------------------ directed triggers
     def add_trigger(self, thread=None, nline=None, qualname=None, line=None, occurrence=1, action=None,
-                    role=None, label=None, at='line', ndp=None, dpkind=None):
+                    role=None, label=None, at='line', ndp=None, dpkind=None, pred=None):
         tr = {'thread': thread, 'index': nline if at == 'line' else ndp, 'qualname': qualname, 'line': line,
-              'occ': occurrence, 'seen': 0, 'action': action, 'role': role, 'label': label, 'dpkind': dpkind}
+              'occ': occurrence, 'seen': 0, 'action': action, 'role': role, 'label': label, 'dpkind': dpkind, 'pred': pred}
         if at == 'line':
             self.triggers.append(tr)
         else:
@@ -740,6 +749,8 @@ class Sim:
             if tr['thread'] is not None and tr['thread'] != t.name:
                 continue
             if tr['role'] is not None and tr['role'] != t.role:
+                continue
+            if tr['pred'] is not None and not tr['pred'](t):
                 continue
             if tr['index'] is not None:
                 if index != tr['index']:
